@@ -222,6 +222,8 @@ class AttributesConverter(object):
             m.seconds = audio_attributes.seconds
         if audio_attributes.ptt is not None:
             m.ptt = audio_attributes.ptt
+        if audio_attributes.streaming_sidecar is not None:
+            m.streaming_sidecar = audio_attributes.streaming_sidecar
 
         return self.downloadablemedia_to_proto(audio_attributes.downloadablemedia_attributes, m)
 
@@ -229,7 +231,8 @@ class AttributesConverter(object):
         return AudioAttributes(
             self.proto_to_downloadablemedia(proto),
             proto.seconds,
-            proto.ptt
+            proto.ptt,
+            proto.streaming_sidecar if proto.HasField("streaming_sidecar") else None
         )
 
     def video_to_proto(self, video_attributes):
